@@ -76,6 +76,8 @@ def gen_case(rng, i, tier):
     elif fam == "B":
         op = rng.choice(["derivative", "integrate", "average", "cumint", "mw"])
         opax = rng.sample(axn, rng.randint(1, len(axn))) if op in ("integrate", "average") else [rng.choice(axn)]
+        if op == "mw" and len(axn) > 1 and rng.random() < 0.5:
+            opax = rng.sample(axn, 2)  # several axes, each weighted by its own metric
     else:
         op = "ufunc"
         opax = [rng.choice(axn)]
@@ -159,7 +161,11 @@ def setup_simple(desc):
     elif op == "cumint":
         fn = lambda x: g.cumint(x, opax[0], to=to[opax[0]], **call)  # noqa: E731
     elif op == "mw":
-        fn = lambda x: getattr(g, desc["mw_base"])(x, opax[0], to=to[opax[0]], metric_weighted=opax[0], **call)  # noqa: E731
+        if len(opax) == 1:
+            fn = lambda x: getattr(g, desc["mw_base"])(x, opax[0], to=to[opax[0]], metric_weighted=opax[0], **call)  # noqa: E731
+        else:
+            mwarg = {a: (a,) for a in opax} if desc["mseed"] % 2 else opax[0]
+            fn = lambda x: getattr(g, desc["mw_base"])(x, list(opax), to=dict(to), metric_weighted=mwarg, **call)  # noqa: E731
     else:
         a = opax[0]
         frm, t_ = desc["pos"][a], to[a]
